@@ -514,7 +514,10 @@ def judge_inter(inp, obs, lr):
         resid = float(np.max(np.abs(C.dec(r["resid"], f)))) if d else 0.0
         mres = C.dec(r["result"], f).reshape(d, amb)
         if not same(res[u], mres):
-            return {"expected": r["result"], "observed": res[u].tolist(), "tags": dict(tags0, site="Subspace.intersect", unit=u)}
+            # a different spanning set of the same subspace is what the property allows: compare the spans
+            st = np.vstack([mres, res[u]])
+            if not (np.linalg.matrix_rank(res[u], tol=1e-9) == d and np.linalg.matrix_rank(st, tol=1e-9) == d):
+                return {"expected": r["result"], "observed": res[u].tolist(), "tags": dict(tags0, site="Subspace.intersect", unit=u)}
         if resid > 1e-9:
             # kernel contract violated by utils.kernel: then the rows do not lie in the second subspace
             via = C.dec(r["via_p2"], f).reshape(d, amb)
@@ -534,6 +537,8 @@ def gen_eig(rng, n):
         ncomp = rng.choice([0, 0, 1, 2, 3])
         units, lams = [], []
         target = F(rng.randint(-6, 6), rng.choice([1, 2]))
+        rot_re = None
+        near = rng.random() < 0.3        # a second eigenvalue at relative distance 1e-4..1e-2 from the requested one
         for u in range(max(ncomp, 1)):
             kind = rng.choice(["diagble", "diagble", "diagble", "rotation"]) if field == "Q" else "diagble"
             if kind == "rotation" and m >= 2:
@@ -543,6 +548,7 @@ def gen_eig(rng, n):
                     c_, s_ = F(3, 5), F(4, 5)
                 D = [[Z(0)] * m for _ in range(m)]
                 D[0][0], D[0][1], D[1][0], D[1][1] = Z(c_), Z(-s_), Z(s_), Z(c_)
+                rot_re = c_
                 lam = []
                 for i in range(2, m):
                     while True:
@@ -563,6 +569,9 @@ def gen_eig(rng, n):
                     lam.append(l)
                 if has_t and target != 0 and target not in lam:
                     lam[rng.randrange(m)] = target
+                if near and target != 0 and target in lam and m >= 2:
+                    j = next(i for i in range(m) if lam[i] != target)
+                    lam[j] = target * (1 + F(rng.choice([-1, 1]) * rng.randint(2, 90), 10000))
                 D = [[Z(lam[i]) if i == j else Z(0) for j in range(m)] for i in range(m)]
                 lam_all = lam
             g = C.rzinv(rng, field, m, 2, 1, F(1))
@@ -570,8 +579,10 @@ def gen_eig(rng, n):
             units.append(Pm)
             lams.append([None if l is None else Q.qs(l) for l in lam_all])
         ev = rng.choice(["none", "target", "target", "absent"])
-        yield {"m": m, "field": field, "ncomp": ncomp, "units": C.enc(units, field), "lams": lams,
-               "eigenvalue": None if ev == "none" else (Q.qs(target) if ev == "target" else "1000")}
+        evs = None if ev == "none" else (Q.qs(target) if ev == "target" else "1000")
+        if rot_re is not None and rng.random() < 0.5:
+            evs = Q.qs(rot_re)           # the real part of a non-real pair is NOT an eigenvalue
+        yield {"m": m, "field": field, "ncomp": ncomp, "units": C.enc(units, field), "lams": lams, "eigenvalue": evs}
 
 
 def _eig_obs(Pm):
@@ -675,6 +686,8 @@ def judge_eig(inp, obs, lr):
                 lam = w[k] / v[k]
                 if np.max(np.abs(w - lam * v)) > 1e-7 * (1 + np.max(np.abs(w))):
                     bad = True
+                if ev is not None and abs(lam - ev) > 1e-4 * (1 + abs(ev)):
+                    bad = True        # an eigenvector, but not for the requested eigenvalue
             return {"expected": {"selected": r0["ok"]}, "observed": obs["vec"],
                     "tags": dict(tags0, site="eigenvector", not_an_eigenvector=bad), "property_failure": bad}
     Pm = C.dec(inp["units"], inp["field"]).astype(complex)
@@ -962,6 +975,8 @@ def gen_eig_o(rng, n):
                     break
             if kind == "real_spectrum":
                 lam = np.array(sorted(rng.sample(range(-9, 10), m))) / 2.0 + 0.25
+                if rng.random() < 0.3:
+                    lam[1] = lam[0] * (1 + rng.choice([-1, 1]) * 10 ** rng.uniform(-3.7, -2.0))   # close, but distinct
                 M = np.linalg.inv(g) @ np.diag(lam) @ g
             else:
                 M = g
